@@ -737,3 +737,79 @@ def _live_names_after(block, i, names):
             if isinstance(x, ast.Name) and x.id in names and isinstance(x.ctx, ast.Load):
                 return True
     return False
+
+
+# ------------------------------------------------------------------------------------------ constant keyword bundles
+
+def expand_constant_kwargs(tree):
+    """`f(a, **self.FLAGS)` where FLAGS is a module / class constant bound exactly once to a dict literal of string keys
+    and literal values (and never stored to otherwise) is read as `f(a, k1=v1, k2=v2)`: the same call.  Returns
+    descriptions of what was done."""
+    found, stores = {}, {}
+    for s in tree.body:
+        scopes = [('', s)] if not isinstance(s, ast.ClassDef) else [(s.name, x) for x in s.body]
+        for cname, x in scopes:
+            if isinstance(x, ast.Assign) and len(x.targets) == 1 and isinstance(x.targets[0], ast.Name) and isinstance(x.value, ast.Dict):
+                nm = x.targets[0].id
+                if (nm.startswith('_') or nm.isupper()) and x.value.keys and all(
+                        isinstance(k, ast.Constant) and isinstance(k.value, str) and k.value.isidentifier() for k in x.value.keys) and \
+                        all(_literal(v) for v in x.value.values):
+                    found.setdefault(nm, []).append((cname, x.value))
+            elif isinstance(x, ast.Assign) and len(x.targets) == 1 and isinstance(x.targets[0], ast.Name) and \
+                    isinstance(x.value, ast.Call) and isinstance(x.value.func, ast.Name) and x.value.func.id == 'dict' and not x.value.args and \
+                    x.value.keywords and all(k.arg and _literal(k.value) for k in x.value.keywords):
+                nm = x.targets[0].id
+                if nm.startswith('_') or nm.isupper():
+                    d = ast.Dict(keys=[ast.Constant(value=k.arg) for k in x.value.keywords], values=[k.value for k in x.value.keywords])
+                    found.setdefault(nm, []).append((cname, d))
+    if not found:
+        return []
+    for n in ast.walk(tree):
+        if isinstance(n, ast.Attribute) and isinstance(n.ctx, (ast.Store, ast.Del)):
+            stores[n.attr] = stores.get(n.attr, 0) + 1
+        elif isinstance(n, ast.Name) and isinstance(n.ctx, (ast.Store, ast.Del)):
+            stores[n.id] = stores.get(n.id, 0) + 1
+        elif isinstance(n, ast.Subscript) and isinstance(n.ctx, (ast.Store, ast.Del)):
+            b = n.value
+            nm = b.attr if isinstance(b, ast.Attribute) else (b.id if isinstance(b, ast.Name) else None)
+            if nm:
+                stores[nm] = stores.get(nm, 0) + 2
+        elif isinstance(n, ast.Call) and isinstance(n.func, ast.Attribute) and n.func.attr in ('update', 'pop', 'setdefault', 'clear', 'popitem'):
+            b = n.func.value
+            nm = b.attr if isinstance(b, ast.Attribute) else (b.id if isinstance(b, ast.Name) else None)
+            if nm:
+                stores[nm] = stores.get(nm, 0) + 2
+    consts = dict((nm, defs[0]) for nm, defs in found.items() if len(defs) == 1 and stores.get(nm, 0) == 1)
+    done = []
+    for c in ast.walk(tree):
+        if not isinstance(c, ast.Call):
+            continue
+        new = []
+        changed = False
+        for k in c.keywords:
+            nm = None
+            if k.arg is None:
+                v = k.value
+                if isinstance(v, ast.Name) and v.id in consts and consts[v.id][0] == '':
+                    nm = v.id
+                elif isinstance(v, ast.Attribute) and isinstance(v.value, ast.Name) and v.attr in consts and consts[v.attr][0]:
+                    nm = v.attr
+            if nm is None:
+                new.append(k)
+                continue
+            d = consts[nm][1]
+            given = set(x.arg for x in c.keywords if x.arg)
+            if any(kk.value in given for kk in d.keys):
+                new.append(k)
+                continue
+            for kk, vv in zip(d.keys, d.values):
+                kw = ast.keyword(arg=kk.value, value=_clone(vv))
+                ast.copy_location(kw, k.value)
+                ast.copy_location(kw.value, k.value)
+                new.append(kw)
+            changed = True
+        if changed:
+            c.keywords = new
+            ast.fix_missing_locations(c)
+            done.append('constant keyword bundle written out at line %d' % getattr(c, 'lineno', 0))
+    return done
